@@ -200,7 +200,11 @@ func (generator *ConverterGenerator) constructorArgs(context Context, converter 
 	for i, assignment := range argAssignments {
 		valuePath := converter.inputRootPath().Append(assignment.Path)
 
-		args = append(args, generator.argumentForType(context, converter, fmt.Sprintf("constructorValue%d", i), valuePath, assignment.Path.Last().Type))
+		arg := generator.argumentForType(context, converter, fmt.Sprintf("constructorValue%d", i), valuePath, assignment.Path.Last().Type)
+		// the value can be absent from the input (an optional field promoted to the constructor)
+		arg.Guards = generator.pathNotNullGuards(converter.inputRootPath(), assignment.Path)
+
+		args = append(args, arg)
 	}
 
 	return args
